@@ -347,7 +347,12 @@ class Builder:
             from biogeme import models
             utils = {int(a): b(u) for a, u in n[1].items()}
             # availabilities listed in another key order than the utilities (legal: both are dictionaries)
-            avs = {int(a): b(n[2][a]) for a in reversed(list(n[2]))} if n[2] is not None else None
+            def av_(c):
+                # constant availabilities are handed over as plain Python numbers
+                if c[0] == 'num' and float(c[1]) in (0.0, 1.0):
+                    return int(c[1])
+                return b(c)
+            avs = {int(a): av_(n[2][a]) for a in reversed(list(n[2]))} if n[2] is not None else None
             ch = b(n[3])
             return models.loglogit(utils, avs, ch) if k == 'loglogit' else models.logit(utils, avs, ch)
         if k == 'mc':
